@@ -356,4 +356,15 @@ theorem joinU_inj_right {l₁ l₂ r₁ r₂ : List Nat} (h1 : us ∉ r₁) (h2 
       rw [hd.2]
       simp
 
+theorem filterMap_entries {α : Type} (c : Coll α) (g : List α) (h : ItemsOK c g) :
+    (g.map c.entry).filterMap (fun e => c.dec e.2) = g := by
+  induction g with
+  | nil => rfl
+  | cons a r ih =>
+    have ha := (h a (List.mem_cons_self)).1
+    simp only [List.map_cons, List.filterMap_cons, Coll.entry, ha]
+    congr 1
+    exact ih (fun x hx => h x (List.mem_cons_of_mem _ hx))
+
+
 end Sif.Gen
